@@ -38,6 +38,8 @@ REGIONS = {
             "tts:displayAlign": "center"},
 }
 STYLES = {"emph": {"tts:fontStyle": "italic"}, "plain": {"tts:color": "white"}}
+# chained referential styling: a style that refers to another one (ids chosen to sort before and after the referenced one)
+CHAINED = {"chain-a": {"style": "emph"}, "zz-chain": {"style": "emph"}, "a-chain-of-two": {"style": "chain-a"}}
 H_ALIGN = {"left": "LEFT", "center": "CENTER", "right": "RIGHT", "start": "START", "end": "END"}
 V_ALIGN = {"before": "TOP", "center": "CENTER", "after": "BOTTOM"}
 
@@ -61,7 +63,7 @@ def serialise(doc, pretty):
     nl, ind = ("\n", "  ") if pretty else ("", "")
     out = [HEAD.format(lang=doc.get("tt_lang", "en"))]
     out.append(f"{ind}<head>{nl}{ind*2}<styling>")
-    for sid, attrs in STYLES.items():
+    for sid, attrs in dict(STYLES, **doc.get("styles", {})).items():
         out.append(f'{ind*3}<style xml:id="{sid}"' + "".join(f' {k}="{v}"' for k, v in attrs.items()) + "/>")
     out.append(f"{ind*2}</styling>{nl}{ind*2}<layout>")
     for rid, attrs in REGIONS.items():
@@ -100,6 +102,8 @@ def shown(items, italic=False, region=None):
                 ital = a["tts:fontStyle"] == "italic"
             elif a.get("style") in STYLES and "tts:fontStyle" in STYLES[a["style"]]:
                 ital = STYLES[a["style"]]["tts:fontStyle"] == "italic"
+            elif a.get("style") in CHAINED:
+                ital = True
             out += shown(it[2], ital, a.get("region") or region)
     return out
 
@@ -161,6 +165,11 @@ def documents(thorough):
         {"lang": "en-US", "ps": [{"begin": "3s", "end": "4s", "content": ["second scene"]}, {"begin": "5s", "end": "6s", "content": ["third"]}]}]}, \
         False, {"en-US": [(S, 2 * S, ["first scene"], None, None, None), (3 * S, 4 * S, ["second scene"], None, None, None),
                           (5 * S, 6 * S, ["third"], None, None, None)], "fr": [(S, 2 * S, ["scène"], None, None, None)]}
+    yield "spans styled through chained style references", {"styles": CHAINED, "divs": [{"lang": "en-US", "ps": [
+        {"begin": "1s", "end": "2s", "content": ["one ", ("span", {"style": "chain-a"}, ["two"]), " three ", ("span", {"style": "zz-chain"}, ["four"])]},
+        {"begin": "3s", "end": "4s", "content": ["five ", ("span", {"style": "a-chain-of-two"}, ["six"])]}]}]}, False, \
+        {"en-US": [(S, 2 * S, ["one ", ("span", {"style": "chain-a"}, ["two"]), " three ", ("span", {"style": "zz-chain"}, ["four"])], None, None, None),
+                   (3 * S, 4 * S, ["five ", ("span", {"style": "a-chain-of-two"}, ["six"])], None, None, None)]}
     yield "caption style reference", {"divs": [{"lang": "en-US", "ps": [{"begin": "1s", "end": "2s", "style": "emph",
                                                                           "content": ["all italic"]}]}]}, False, \
         {"en-US": [(S, 2 * S, ["all italic"], None, "emph", None)]}
@@ -222,6 +231,16 @@ def region_value(rid):
     return (pair(a["tts:origin"]), pair(a["tts:extent"]), pad, H_ALIGN[a["tts:textAlign"]], V_ALIGN[a["tts:displayAlign"]])
 
 
+def _resolved_italics(st, doc_styles, depth=0):
+    """italics of a style dict, following its references into the document's styles (chained referential styling)"""
+    if st.get("italics"):
+        return True
+    if depth > 4:
+        return False
+    refs = st.get("classes") or ([st["class"]] if st.get("class") else [])
+    return any(_resolved_italics(doc_styles.get(r_) or {}, doc_styles, depth + 1) for r_ in refs if isinstance(r_, str))
+
+
 def read_back(r):
     """{lang: [{start, end, lines, italic, chars[(ch, italic, layout value)], style}]}"""
     from .foldutil import captions_by_language, styles_of
@@ -240,7 +259,7 @@ def read_back(r):
                     chars += [(ch, on, lay) for ch in nd.attrs.get("content")]
                 elif t == 2:
                     st = nd.attrs.get("content") or {}
-                    if st.get("italics") or (doc_styles.get(st.get("class")) or {}).get("italics"):
+                    if _resolved_italics(st, doc_styles):
                         on = bool(nd.attrs.get("start"))
             text = "".join(ch for ch, _, _ in chars)
             rows.append({"start": c.attrs.get("start"), "end": c.attrs.get("end"),
